@@ -12,7 +12,6 @@ import (
 	"fmt"
 	"sort"
 	"strconv"
-	"strings"
 
 	"github.com/graphql-go/graphql"
 	"github.com/graphql-go/graphql/language/ast"
@@ -788,40 +787,4 @@ func ViewOf(s *graphql.Schema) View {
 	v.HasMutation = s.MutationType() != nil
 	v.HasSub = s.SubscriptionType() != nil
 	return v
-}
-
-// Canon renders a view with every list the property treats as a set sorted, so that two
-// views can be compared textually (multiplicities are kept).
-func (v View) Canon() string {
-	var sb strings.Builder
-	ref := func(r VRef) string { return strings.Join(r.W, "") + ":" + r.N + ":" + r.K + ":" + strconv.FormatBool(r.Same) }
-	for _, t := range v.Types {
-		fmt.Fprintf(&sb, "%s|%s|%s|%v;", t.Key, t.Name, t.Kind, t.Lookup)
-		for _, f := range t.Fields {
-			sb.WriteString(f.Name + "=" + ref(f.Type) + "(")
-			for _, a := range f.Args {
-				sb.WriteString(a.Name + "=" + ref(a.Type) + ",")
-			}
-			sb.WriteString(")")
-		}
-		var rs []string
-		for _, r := range t.Ifaces {
-			rs = append(rs, "i"+ref(r))
-		}
-		for _, r := range t.Poss {
-			rs = append(rs, "p"+ref(r))
-		}
-		for _, n := range t.IsPoss {
-			rs = append(rs, "q"+n)
-		}
-		sort.Strings(rs)
-		sb.WriteString(strings.Join(rs, ","))
-		for _, a := range t.Inputs {
-			sb.WriteString(a.Name + "=" + ref(a.Type) + ",")
-		}
-		sb.WriteString(strings.Join(t.Values, ","))
-		sb.WriteString("\n")
-	}
-	sb.WriteString(ref(v.Query) + ref(v.Mutation) + ref(v.Subscription))
-	return sb.String()
 }
